@@ -93,6 +93,18 @@ def value_problems(v, depth=0):
         for x in v:
             out += value_problems(x, depth + 1)
         return out
+    if type(v).__name__ == "Parent":
+        probs = []
+        try:
+            if v.location is not None and v.sequence is not None and type(v.location) is not _EmptyLocation and v.location.end > len(v.sequence):
+                probs.append(f"Parent: child location end {v.location.end} beyond its sequence of {len(v.sequence)}")
+            if v.location is not None and type(v.location) is not _EmptyLocation and v._strand is not None and v._strand is not v.location.strand:
+                probs.append(f"Parent: strand {v._strand} contradicts its location's strand {v.location.strand}")
+            if v.location is not None and v.location.parent is not None and v.id is not None and v.location.parent.id not in (None, v.id):
+                probs.append("Parent: id differs from its location's parent id")
+        except Exception as e:  # noqa
+            probs.append(f"Parent invariant evaluation raised {type(e).__name__}")
+        return probs
     if isinstance(v, AbstractInterval):
         return interval_problems(v)
     if isinstance(v, Sequence):
@@ -311,6 +323,47 @@ def ctor_cases():
     add("ParentModel(chunk without start).to_parent", lambda: _model("ParentModel", dict(seq="ACGT", type="SEQUENCE_CHUNK", sequence_name="c")).to_parent())
     add("GeneIntervalModel(no transcripts).to_gene_interval", lambda: _model("GeneIntervalModel", dict(transcripts=[])).to_gene_interval())
     add("VariantIntervalModel(start==end).to_variant_interval", lambda: _model("VariantIntervalModel", dict(start=3, end=3, sequence="A", variant_type="SNV")).to_variant_interval())
+
+    # ---- systematic perturbations: every parallel-list argument of every constructor with one entry too few / too many /
+    # none; every coordinate pushed below 0 / beyond the sequence / swapped; zero-length and nested variants ----------------
+    def list_variants(lst, filler):
+        return {"short": list(lst[:-1]), "long": list(lst) + [filler], "empty": []}
+
+    bases = {
+        "CompoundInterval": (dict(starts=[1, 7], ends=[4, 10]), lambda kw, par: CompoundInterval(kw["starts"], kw["ends"], P, par)),
+        "FeatureInterval": (dict(starts=[1, 7], ends=[4, 10]), lambda kw, par: FeatureInterval(kw["starts"], kw["ends"], Mi, parent_or_seq_chunk_parent=par)),
+        "TranscriptInterval": (dict(starts=[1, 7], ends=[4, 10]), lambda kw, par: TranscriptInterval(kw["starts"], kw["ends"], P, parent_or_seq_chunk_parent=par)),
+        "CDSInterval": (dict(starts=[1, 7], ends=[4, 10], frames=[Z, Z]), lambda kw, par: CDSInterval(kw["starts"], kw["ends"], P, kw["frames"], parent_or_seq_chunk_parent=par)),
+        "Transcript+CDS": (dict(starts=[1, 7], ends=[4, 10], frames=[Z, Z]), lambda kw, par: TranscriptInterval([0, 6], [5, 12], Mi, cds_starts=kw["starts"], cds_ends=kw["ends"], cds_frames=kw["frames"], parent_or_seq_chunk_parent=par)),
+    }
+    for cname, (base, fn) in bases.items():
+        for key in base:
+            filler = Z if key == "frames" else (12 if key == "starts" else 14)
+            for vname, v in list_variants(base[key], filler).items():
+                kw = dict(base, **{key: v})
+                for pn, pf in (("none", lambda: None), ("chrom", chrom)):
+                    add(f"SYS {cname}({key}:{vname},{pn})", lambda fn=fn, kw=kw, pf=pf: fn(kw, pf()))
+        for i in (0, 1):
+            for what, kwmod in (
+                ("start<0", lambda kw, i=i: dict(kw, starts=[(-1 if j == i else x) for j, x in enumerate(kw["starts"])])),
+                ("end>len", lambda kw, i=i: dict(kw, ends=[(N + 2 if j == i else x) for j, x in enumerate(kw["ends"])])),
+                ("swapped", lambda kw, i=i: dict(kw, starts=[(kw["ends"][j] if j == i else x) for j, x in enumerate(kw["starts"])], ends=[(kw["starts"][j] if j == i else x) for j, x in enumerate(kw["ends"])])),
+                ("nested-beyond", lambda kw, i=i: dict(kw, starts=[0] + list(kw["starts"]), ends=[N + 3] + list(kw["ends"]), **({"frames": [Z] + list(kw["frames"])} if "frames" in kw else {}))),
+            ):
+                add(f"SYS {cname}(block{i}:{what},chrom)", lambda fn=fn, base=base, kwmod=kwmod: fn(kwmod(dict(base)), chrom()))
+    # Parent: every kind of child location x every kind of inconsistency
+    seq10 = lambda: Sequence("ACGTACGTAC", Alphabet.NT_STRICT, id="s")
+    locs = {
+        "single": lambda st, par=None: SingleInterval(12, 15, st, par),
+        "single-zero": lambda st, par=None: SingleInterval(15, 15, st, par),
+        "compound": lambda st, par=None: CompoundInterval([2, 12], [4, 15], st, par),
+        "compound-all-zero": lambda st, par=None: CompoundInterval([12, 15], [12, 15], st, par),
+    }
+    for lname, lf in locs.items():
+        add(f"SYS Parent(location {lname} beyond sequence)", lambda lf=lf: Parent(sequence=seq10(), location=lf(P)))
+        add(f"SYS Parent(strand mismatch, location {lname})", lambda lf=lf: Parent(strand=Mi, location=lf(P)))
+        add(f"SYS Parent(id mismatch, location {lname})", lambda lf=lf: Parent(id="a", location=lf(P, "b")))
+        add(f"SYS Parent(type mismatch, location {lname})", lambda lf=lf: Parent(sequence_type="x", location=lf(P, Parent(id="b", sequence_type="y"))))
     return cases
 
 
